@@ -78,6 +78,11 @@ func main() {
 		rules.DebugAppWrites(c)
 		return
 	}
+	if os.Args[1] == "debug-fieldflow" {
+		c := core.NewCtx("DBG", "quick")
+		rules.DebugFieldFlow(c, os.Args[2], os.Args[3:])
+		return
+	}
 	if os.Args[1] == "debug-layout" {
 		c := core.NewCtx("DBG", "quick")
 		rules.DebugLayout(c)
